@@ -176,6 +176,16 @@ impl BBox {
     }
 }
 
+/// Same as `NonZeroRect::bbox_transform`, but returns `None` instead of panicking
+/// when the resulting rect is invalid, e.g. its size is not finite.
+pub(crate) fn checked_bbox_transform(r: NonZeroRect, bbox: NonZeroRect) -> Option<NonZeroRect> {
+    let x = r.x() * bbox.width() + bbox.x();
+    let y = r.y() * bbox.height() + bbox.y();
+    let w = r.width() * bbox.width();
+    let h = r.height() * bbox.height();
+    NonZeroRect::from_xywh(x, y, w, h)
+}
+
 /// Returns object aligned position.
 pub(crate) fn aligned_pos(align: Align, x: f32, y: f32, w: f32, h: f32) -> (f32, f32) {
     match align {
